@@ -41,10 +41,26 @@ class BaseObject(object):
             if key in ["id", "oid"]:
                 continue
 
-            if getattr(self, key) != getattr(obj, key):
+            if not self._same_content(getattr(self, key), getattr(obj, key)):
                 return False
 
         return True
+
+    @staticmethod
+    def _same_content(mine, other):
+        """
+        Compares two attribute values of odML objects. A float 'nan' is the same content
+        as another float 'nan', alone as well as within a list of values.
+        """
+        if isinstance(mine, float) and isinstance(other, float) and \
+                mine != mine and other != other:
+            return True
+
+        if type(mine) is list and type(other) is list:
+            return len(mine) == len(other) and \
+                all(BaseObject._same_content(val_a, val_b) for val_a, val_b in zip(mine, other))
+
+        return mine == other
 
     def __ne__(self, obj):
         """
